@@ -25,6 +25,7 @@ REGION = [
     "secsgem.hsms.protocol:HsmsProtocol._on_connection_message_received",
     "secsgem.hsms.protocol:HsmsProtocol._process_received_data",
     "secsgem.common.protocol_dispatcher:ProtocolDispatcher.*",
+    "secsgem.common.block_send_info:BlockSendInfo.*",
 ]
 
 T3 = 45.0
@@ -63,7 +64,35 @@ def driver_factory(cfg):
         if not hh.select_passive(s, ep):
             obs["notes"].append("not selected")
             return
-        if reconnect:
+        if reconnect == "busy":
+            # a message handler is still running when the link is lost and comes back: the old dispatcher must not
+            # serve the new connection together with the new one
+            gate = vrt.Event()
+            busy = {"n": 0}
+
+            def slow(data):
+                if busy["n"] == 0:
+                    busy["n"] = 1
+                    gate.wait(30.0)
+
+            proto.events.message_received += slow
+            ep.conn.peer_send(unsol_frame(7))
+            s.settle()
+            ep.conn.peer_close()
+            s.settle()
+            ep.reset_wire()
+            ep.conn.peer_connect()
+            s.settle()
+            ep.conn.peer_send(e37.control(e37.SELECT_REQ, 0x7002))
+            s.settle()
+            gate.set()
+            s.settle()
+            ep.pump()
+            obs["cb"].clear()
+            if ep.state() != "CONNECTED_SELECTED":
+                obs["notes"].append("not selected after reconnect")
+                return
+        elif reconnect:
             # lose the link once and select again: a second generation of protocol threads
             ep.conn.peer_close()
             s.settle()
@@ -349,6 +378,7 @@ CONFIGS_QUICK = [
     ({"callers": 2, "unsolicited": 2, "counter": 0}, {"sched": 2, "env": 1}),
     ({"callers": 2, "unsolicited": 2, "counter": 0xFFFFFFFE}, {"sched": 1, "env": 1}),
     ({"callers": 2, "unsolicited": 2, "counter": 5, "reconnect": True}, {"sched": 1, "env": 0}),
+    ({"callers": 2, "unsolicited": 2, "counter": 5, "reconnect": "busy"}, {"sched": 1, "env": 0}),
     # SECS-I: reply orders only.  Schedules with delays make both ends transmit at once (line contention), which the
     # statement of the line protocol (C17) excludes and which the library does not survive (see DESIGN.md 7.3).
     ({"callers": 2, "unsolicited": 2, "counter": 9, "transport": "secsi"}, {"sched": 0, "env": 2}),
@@ -358,6 +388,7 @@ CONFIGS_THOROUGH = [
     ({"callers": 3, "unsolicited": 2, "counter": 0xFFFFFFFD}, {"sched": 2, "env": 2}),
     ({"callers": 2, "unsolicited": 3, "counter": 5, "reconnect": True}, {"sched": 2, "env": 1}),
     ({"callers": 3, "unsolicited": 2, "counter": 9, "transport": "secsi"}, {"sched": 0, "env": 3}),
+    ({"callers": 2, "unsolicited": 3, "counter": 5, "reconnect": "busy"}, {"sched": 2, "env": 1}),
 ]
 
 
